@@ -47,12 +47,18 @@ def leaves(d, path=()):
             yield path + (k,), v
 
 
+REMOVE = "__remove_this_leaf__"
+OPTIONAL_LEAVES = ("data_format", "rdh_version", "system_id", "run_trigger_type")      # recorded once per run; absent in a file = "never recorded"
+
+
 def perturb(rng, path, v):
     """list of (description, new value) that keep the file well-typed"""
     name = path[-1]
     res = []
     if isinstance(v, bool):
         return res
+    if name in OPTIONAL_LEAVES and v is not None:
+        res.append(("removed", REMOVE))
     if isinstance(v, int):
         small = name in ("rdh_version", "data_format")
         res.append(("+1", v + 1 if not (small and v >= 255) else v - 1))
@@ -93,7 +99,7 @@ def perturb(rng, path, v):
 def set_path(d, path, v):
     for k in path[:-1]:
         d = d[k]
-    if v is None:
+    if v is None or v == REMOVE:
         d.pop(path[-1], None)
     else:
         d[path[-1]] = v
@@ -173,7 +179,8 @@ def one_case(args):
         if "fatal_error" not in a.stats["error_stats"]:   # TOML has no null
             todo.append((("error_stats", "fatal_error"), "set", "fatal"))
         if tier == "quick" and len(todo) > 40:
-            todo = rng.sample(todo, 40)
+            must = [t for t in todo if t[1] == "removed"]
+            todo = must + rng.sample([t for t in todo if t[1] != "removed"], 40 - len(must))
         for pth, what, nv in todo:
             st = copy.deepcopy(a.stats)
             set_path(st, pth, nv)
